@@ -77,7 +77,7 @@ void runRoute(const Scn &scn, Out &out)
     QList<QObject *> owned;
     THandler *root = nullptr;
     QByteArray raw;
-    bool noroot = false;
+    bool noroot = false, late = false, unsetlate = false;
     foreach (const QString &t, scn.toks) {
         QStringList p = t.split(':');
         if (p[0] == "pat") pats[p[1].toInt()] = QRegExp(un16(p[2]));
@@ -91,6 +91,8 @@ void runRoute(const Scn &scn, Out &out)
         else if (p[0] == "mw") { TMiddleware *m = new TMiddleware(p[2].toInt(), p[3] == "1", obs); owned << m; nodes[p[1].toInt()]->addMiddleware(m); }
         else if (p[0] == "req") raw = unhx(p[1]);
         else if (p[0] == "noroot") noroot = true;
+        else if (p[0] == "late") late = true;
+        else if (p[0] == "unsetlate") unsetlate = true;
     }
     QByteArray stream = "GET " + raw + " HTTP/1.1\r\n\r\n";
     urlOracle(stream, out);
@@ -114,12 +116,17 @@ void runRoute(const Scn &scn, Out &out)
     }
 
     Server *server = new Server;
-    if (root && !noroot) server->setHandler(root);
+    // `late`: the handler is installed only after the connection was accepted;
+    // `unsetlate`: it is removed after the connection was accepted (the handler in force when the
+    // headers are parsed decides)
+    if (root && !noroot && !late) server->setHandler(root);
     ServerPrivate *sp = server->findChild<ServerPrivate *>();
     QPointer<SimTcp> tcp = new SimTcp;
     tcp->log = obs;
     *obs << "e:0";
     sp->process(tcp);
+    if (late && root && !noroot) server->setHandler(root);
+    if (unsetlate) server->setHandler(nullptr);
     *obs << "e:1";
     if (tcp) tcp->feed(stream);
     *obs << "e:2";
